@@ -1,4 +1,4 @@
-from ._files import PseudoNetCDFFile
+from ._files import PseudoNetCDFFile, _getncattr
 from collections import OrderedDict
 
 
@@ -77,7 +77,7 @@ class WrapPNC(PseudoNetCDFFile):
         # from PseudoNetCDF import pncopen
         self._file = args[0]  # pncopen(*args, **kwds)
         for k in self._file.ncattrs():
-            setattr(self, k, getattr(self._file, k))
+            setattr(self, k, _getncattr(self._file, k))
         self.dimensions = WrapDict(self._file.dimensions)
         self.variables = WrapDict(self._file.variables)
 
